@@ -235,7 +235,35 @@ theorem policy_valid (a : Agent α) (u : α) (choice : Nat) (hne : a.q ≠ []) (
   · exact (argmax_spec a.q hne).1
   · exact hc
 
+/-! ## the scheduler → environment chain over a run (used by C10: "the reward is computed from that very batch's outcome") -/
+
+/-- **every reward is the published rule applied to that batch's own outcome**: with the reference set by the
+bootstrap batch, the reward the environment computes for the k-th agent-chosen batch — from the scheduler's running
+best handed over after that batch, against the environment's own reference — is the relative improvement of that
+batch's minimum loss over the best loss of all earlier batches, and zero when it does not improve.  The two
+references (scheduler's `_best_loss`, environment's `_curr_best_loss`) never drift apart. -/
+theorem runRewards_eq_rule (boot : α) (losses : List α) :
+    runRewards 0 boot losses = rewardsByRule 0 boot losses := by
+  induction losses generalizing boot with
+  | nil => rfl
+  | cons l ls ih =>
+    unfold runRewards at ih ⊢
+    by_cases h : l < boot
+    · simp only [schedBests, h, if_true, envRewards, getReward, rewardsByRule]
+      rw [ih l]
+    · simp only [schedBests, h, if_false, envRewards, getReward, lt_irrefl, rewardsByRule]
+      rw [ih boot]
+
+/-- one reward per batch -/
+theorem runRewards_length (boot : α) (losses : List α) : (runRewards 0 boot losses).length = losses.length := by
+  rw [runRewards_eq_rule]
+  induction losses generalizing boot with
+  | nil => rfl
+  | cons l ls ih => unfold rewardsByRule; split <;> simp [ih]
+
 /-! ### non-vacuity -/
+example : runRewards (0 : ℚ) 4 [5, 2, 2, 1] = [0, 1/2, 0, 1/2] := by
+  simp [runRewards, schedBests, envRewards, getReward]; norm_num
 example : (learnAll (Nat.cast : Nat → ℚ) (Agent.init 2 (-1) 0 5) [(0, 1), (1, 7), (0, 3)]).q = [2, 7] := by
   simp [learnAll, learn, stepSize, Agent.init]; norm_num
 example : getReward (0 : ℚ) 4 3 = (1/4, 3) := by simp [getReward]; norm_num
